@@ -76,6 +76,7 @@ type Node struct {
 	crashedF int32
 	stoppedF int32
 	exited   int32 // Serve returned
+	slow     int32 // a wait on this node was abandoned: later waits are short
 }
 
 func newCluster(cid uint64, rc *Recorder, pc *Points, nw *memnet.Net, scratch string, opt raft.Options, seed int64) *Cluster {
@@ -389,9 +390,25 @@ func (n *Node) submitFSM(t raft.FSMTask) bool {
 
 // wait waits for t; false if the node went away first.
 func (n *Node) wait(t raft.Task) bool {
+	// The harness itself must reach the end of the run, or a node that has
+	// stopped completing tasks is only ever seen by the run's watchdog. A
+	// minute is far beyond anything a task legitimately waits for here
+	// (quorum wait and transfer timeouts are at most 60 heartbeat timeouts);
+	// the verdict on the task is given after the shutdown of all nodes
+	// (task-stuck), not here.
+	bound := 60 * time.Second
+	if atomic.LoadInt32(&n.slow) != 0 {
+		bound = 2 * time.Second
+	}
+	tm := time.NewTimer(bound)
+	defer tm.Stop()
 	select {
 	case <-t.Done():
 		return true
+	case <-tm.C:
+		atomic.StoreInt32(&n.slow, 1)
+		n.cl.rc.emitNode(n.dir, &ev.Rec{K: "wait-abandoned"})
+		return false
 	case <-n.gone:
 		// a gracefully stopped node completes its tasks; give it the chance
 		select {
